@@ -165,6 +165,8 @@ type PathQuery struct {
 	Step func(in ssa.Instruction, deferred bool, st uint64, c *PathCtx) (uint64, bool)
 	// AtReturn is called when a path reaches a return.
 	AtReturn func(ret *ssa.Return, st uint64, c *PathCtx)
+	// AtBlock is called when a path enters a block (before its instructions); returns the new state.
+	AtBlock func(b *ssa.BasicBlock, st uint64, c *PathCtx) uint64
 	// AtPanic is called when a path reaches an explicit panic (optional).
 	AtPanic func(pn *ssa.Panic, st uint64, c *PathCtx)
 	// InitAssign seeds known conditions.
@@ -283,6 +285,11 @@ func (q *PathQuery) Run() {
 		// successors
 		term := s.b.Instrs[len(s.b.Instrs)-1]
 		push := func(succ *ssa.BasicBlock, assign map[string]bool) {
+			st := st
+			if q.AtBlock != nil {
+				// the edge's facts are visible to the client before a back edge forgets them
+				st = q.AtBlock(succ, st, &PathCtx{K: q.K, assign: assign, blocks: s.blocks, phiSel: s.phiSel, P: q.P})
+			}
 			// back edge: forget conditions and phi selections defined inside the loop
 			if succ.Dominates(s.b) {
 				na := map[string]bool{}
